@@ -418,7 +418,7 @@ def wicks(expr, rules: Rules = None, simplify_kronecker_deltas: bool = False):
                 target_idx = [s for s, n in n_objects.items() if n == 1]
                 result = evaluate_deltas(result, target_idx)
     else:  # neither add, Mul, NO or Operator -> maybe a number or a tensor
-        return expr
+        result = expr
 
     # apply rules to the result
     if rules is None:
